@@ -35,6 +35,23 @@ pub struct ChainView {
     pub stakes: BTreeMap<String, u64>,
     /// the node's view is unavailable (cardano node down): every read fails
     pub down: bool,
+    /// `(n, next)`: after `n` more reads through the observers the view becomes `next` — the
+    /// chain moves on *inside* a cycle of the node, between two of its reads
+    pub pending: Option<(u32, Box<ChainView>)>,
+}
+
+/// One read of the node's cardano node: counts down an armed mid-cycle change, then returns what
+/// the node sees.
+fn observe(view: &SharedView) -> ChainView {
+    let mut v = view.lock().unwrap();
+    if let Some((n, next)) = v.pending.take() {
+        if n == 0 {
+            *v = *next;
+        } else {
+            v.pending = Some((n - 1, next));
+        }
+    }
+    v.clone()
 }
 
 impl ChainView {
@@ -72,7 +89,7 @@ impl ChainObserver for SimChainObserver {
     }
 
     async fn get_current_epoch(&self) -> Result<Option<Epoch>, ChainObserverError> {
-        let v = self.view.lock().unwrap();
+        let v = observe(&self.view);
         if v.down {
             return Err(down());
         }
@@ -80,7 +97,7 @@ impl ChainObserver for SimChainObserver {
     }
 
     async fn get_current_chain_point(&self) -> Result<Option<ChainPoint>, ChainObserverError> {
-        let v = self.view.lock().unwrap();
+        let v = observe(&self.view);
         if v.down {
             return Err(down());
         }
@@ -88,7 +105,7 @@ impl ChainObserver for SimChainObserver {
     }
 
     async fn get_current_stake_distribution(&self) -> Result<Option<StakeDistribution>, ChainObserverError> {
-        let v = self.view.lock().unwrap();
+        let v = observe(&self.view);
         if v.down {
             return Err(down());
         }
@@ -107,7 +124,7 @@ pub struct SimImmutableObserver {
 #[async_trait]
 impl ImmutableFileObserver for SimImmutableObserver {
     async fn get_last_immutable_number(&self) -> StdResult<ImmutableFileNumber> {
-        let v = self.view.lock().unwrap();
+        let v = observe(&self.view);
         if v.down {
             anyhow::bail!("simulated cardano node is unavailable");
         }
